@@ -123,6 +123,25 @@ class GBackend(Backend, backend_name="vtsym"):
         return G.index_update(tensor, indices, values)
 
     where = staticmethod(G.where)
+    trace = staticmethod(G.trace)
+    concatenate = staticmethod(G.concatenate)
+    finfo = staticmethod(np.finfo)
+
+    @staticmethod
+    def clip(tensor, a_min=None, a_max=None):
+        lo = -float("inf") if a_min is None else a_min
+        hi = float("inf") if a_max is None else a_max
+        return G.elementwise("clip", tensor, lo, hi)
+
+    @staticmethod
+    def all(tensor):
+        if isinstance(tensor, G.ElemCond):
+            return G.DataBool("all", tensor, None)
+        return G.DataBool("all", tensor, None)
+
+    @staticmethod
+    def any(tensor, *a, **k):
+        return G.DataBool("any", tensor, None)
 
     @staticmethod
     def max(tensor, axis=None):
@@ -142,6 +161,30 @@ class GBackend(Backend, backend_name="vtsym"):
     def arange(start=0, stop=None, step=None):
         return np.arange(start, stop, step) if stop is not None else np.arange(start)
 
+    # ---- linear-algebra dependencies: opaque results (fresh symbolic tensors) + a log of call sites.
+    #      Their contracts (A3) are used by obligations as hypotheses; the arguments at each call site are what
+    #      C07-style obligations constrain.
+    def solve(self, a, b):
+        G.log("solve")
+        a, b = G.lift(a), G.lift(b)
+        if a.ndim != 2 or not (G.same(a.shape[0], a.shape[1]) or bool(G.SInt.lift(a.shape[0]) == a.shape[1])):
+            raise ValueError("Last 2 dimensions of the array must be square")
+        if not (G.same(a.shape[1], b.shape[0]) or bool(G.SInt.lift(a.shape[1]) == b.shape[0])):
+            raise ValueError("solve: Input operand 1 has a mismatch in its core dimension 0")
+        x = G.opaque_tensor("SOL", G.axis_sizes(b), G._result_dtype(a, b))
+        G.LA_LOG.append(dict(op="solve", A=a, B=b, X=x))
+        return x
+
+    def lstsq(self, a, b, rcond=None):
+        G.log("lstsq")
+        a, b = G.lift(a), G.lift(b)
+        if not (G.same(a.shape[0], b.shape[0]) or bool(G.SInt.lift(a.shape[0]) == b.shape[0])):
+            raise ValueError("Incompatible dimensions")
+        x = G.opaque_tensor("LSQ", [G.axis_sizes(a)[1]] + G.axis_sizes(b)[1:], G._result_dtype(a, b))
+        G.LA_LOG.append(dict(op="lstsq", A=a, B=b, X=x))
+        res = G.opaque_tensor("LSQRES", list(b.shape[1:]) if b.ndim > 1 else [], "float64")
+        return x, res, None, None
+
     def __getattr__(self, name):
         # Backend defines stubs raising NotImplementedError for everything; reaching here means truly unknown
         raise EngineError(f"backend primitive {name!r} has no contract in E1-generic")
@@ -155,8 +198,8 @@ def _undecided(name):
     return staticmethod(f)
 
 
-for _n in ("concatenate", "clip", "max", "min", "argmax", "argmin", "all", "any", "prod", "cumsum", "count_nonzero",
-           "trace", "maximum", "minimum", "solve", "lstsq", "qr", "svd", "eigh", "sort", "argsort", "flip", "log", "log2",
+for _n in ("max", "min", "argmax", "argmin", "prod", "cumsum", "count_nonzero",
+           "maximum", "minimum", "qr", "svd", "eigh", "sort", "argsort", "flip", "log", "log2",
            "exp", "logsumexp", "sin", "cos", "tan", "kron_", "randn", "gamma"):
     if _n not in GBackend.__dict__:
         setattr(GBackend, _n, _undecided(_n))
